@@ -77,9 +77,11 @@ type tol struct {
 
 var exactText = map[string]bool{"pre": true, "textarea": true, "script": true, "style": true}
 
-// a line ending inside a code span reads as one space (CommonMark 6.1; goldmark leaves the CR of a
-// CR LF in place, which is white space next to that space)
-var codeNL = regexp.MustCompile(`[ \t]*\n[ \t\n]*`)
+// a line ending inside a code span reads as one space (CommonMark 6.1). goldmark turns the LF of a
+// CR LF into that space and leaves the CR in front of it, which the HTML parser reads as LF: "\n "
+// on the reference side is the same single line ending. (A continuation line never starts with a
+// space, leading white space of paragraph lines is stripped, so "\n " has no other source.)
+var codeNL = regexp.MustCompile(`\n ?`)
 
 var alignRe = regexp.MustCompile(`^\s*text-align:\s*(left|center|right)\s*;?\s*$`)
 
@@ -93,7 +95,7 @@ func escURL(s string) string { return string(util.URLEscape([]byte(s), false)) }
 //   - heading id attributes are an extra of vuego's templates: ignored;
 //   - align="x" on a cell == style="text-align:x";
 //   - <ol> without start == start="1";
-//   - <img> without alt == alt="";
+//   - <img> without alt == alt=""; white space runs in alt collapsed (it is text);
 //   - an empty title == no title (neither has a tooltip);
 //   - href/src are compared after the same percent-escaping on both sides.
 func normAttrs(tag string, a map[string]string) map[string]string {
@@ -115,9 +117,8 @@ func normAttrs(tag string, a map[string]string) map[string]string {
 			a["start"] = "1"
 		}
 	case "img":
-		if _, ok := a["alt"]; !ok {
-			a["alt"] = ""
-		}
+		// the description is text: white space runs collapsed like other text
+		a["alt"] = strings.Join(strings.Fields(a["alt"]), " ")
 	}
 	if tag == "a" || tag == "img" {
 		if v, ok := a["title"]; ok && v == "" {
@@ -541,6 +542,13 @@ func analyse(src []byte) facts {
 			textual(v.Destination, "attr")
 			textual(v.Title, "attr")
 			textual(plain(v), "attr")
+			_ = ast.Walk(v, func(c ast.Node, entering bool) (ast.WalkStatus, error) {
+				if t, ok := c.(*ast.Text); ok && entering && (t.SoftLineBreak() || t.HardLineBreak()) {
+					set("image-alt-multiline")
+					region(fAltLineBreak)
+				}
+				return ast.WalkContinue, nil
+			})
 			if len(v.Destination) == 0 {
 				set("empty-destination")
 				region(fEmptyDest)
